@@ -2,8 +2,11 @@ import sys, time
 sys.path.insert(0, '/verif')
 from pyvc import heapworld, solve
 from pyvc.core import Obligation
-from contracts import resolver
+from contracts import resolver, render
 only = sys.argv[1:]
+import os
+if os.environ.get('WHICH')=='render':
+    resolver = render
 reg, specs = resolver.build()
 allobl=[]
 for spec in specs:
